@@ -232,6 +232,7 @@ pub fn run(ctx: &Ctx) -> i32 {
         st.count("grapheme_class_repetition_variants");
         check_case(ctx, st, &tcs, Settings::new(o | m));
     });
+    if std::env::var("VERIF_TIMING").is_ok() { eprintln!("[timing] c08.rs block 1: {:.1}s", ctx.run.started.elapsed().as_secs_f64()); }
     // medium-sized inputs: many / long test cases, many distinct symbols, long repeats, deep prefix chains
     {
         let n = if ctx.thorough { 4000 } else { 300 };
@@ -288,6 +289,7 @@ pub fn run(ctx: &Ctx) -> i32 {
         st.count(&format!("random_{name}"));
         check_case(ctx, st, &tcs, s);
     });
+    if std::env::var("VERIF_TIMING").is_ok() { eprintln!("[timing] c08.rs block 2: {:.1}s", ctx.run.started.elapsed().as_secs_f64()); }
     ctx.run.finish(
         "cases = all subsets (size<=4 quick, all thorough) of {a,b}^<=3 and {a,b,c}^<=2 incl. the empty string x {no start, no end, neither}; grapheme-cluster, class-converted and repetition variants of prefix-related test cases x 4 anchor modes x other settings; random structured families (prefix chains etc.) over 9 alphabets x random anchor mode x random other settings; non-trivial = some test case is a proper prefix of, or shares its first character with, another; distinct by (set of test cases, settings)",
         "per execution: anchor structure decided on the regex-syntax HIR (Look::Start first iff start anchor not disabled, Look::End last iff end anchor not disabled, no other assertions); DFA equivalence of ^(?:anchor-less output)$ with the anchored build; span monitor: regex::Regex::find(test case) on the real output must be Some(0..len) for every test case",
